@@ -42,7 +42,7 @@ META = {"C16": {
                     "variable the other writes; no step-ending statements in the executed variant"],
     "probes": ["temp_clash", "loop_counter_clash", "flag_clash", "id_clash", "predicate_custom",
                "disagree_initial", "disagree_transition", "interleaved", "handwritten_ids", "fusion_of_a_fusion",
-               "phase_record_name_differs_from_key",
+               "phase_record_name_differs_from_key", "methods_with_implicit_solves",
                "earlier_fusion_of_same_objects"],
 }}
 
@@ -168,8 +168,13 @@ def run_c16(ctx):
         cfgB["extra_temps"] = ["i", "j", "i", "j"] + list(cfgB.get("extra_temps", []))
         forbid_b = forbid + ("loops", "arrays", "var_bounds")
         ctx.count("probe:counter_name_as_temporary")
-    scA = ScriptGen(tape, max_ops=6, max_depth=2, persistent_p=False, forbid=forbid, cfg=cfgA).gen()
-    scB = ScriptGen(tape, max_ops=6, max_depth=2, persistent_p=False, forbid=forbid_b, cfg=cfgB).gen()
+    with tape.span("implicit"):
+        implicit = tape.chance(0.3, "implicit")     # implicit solves (executed by the simulated solver of C02)
+    if implicit:
+        ctx.count("probe:methods_with_implicit_solves")
+    scA = ScriptGen(tape, max_ops=6, max_depth=2, persistent_p=False, forbid=forbid, cfg=cfgA, implicit=implicit).gen()
+    scB = ScriptGen(tape, max_ops=6, max_depth=2, persistent_p=False, forbid=forbid_b, cfg=cfgB,
+                    implicit=implicit).gen()
     try:
         apA, apB = apply_script(scA), apply_script(scB)
     except Exception:
